@@ -1194,8 +1194,9 @@ def fuse_linear_task_spec(dsk, keys):
         else:
             # Renaming the keys is necessary to preserve the rootish detection for now
             renamed_key = default_fused_keys_renamer([tsk.key for tsk in linear_chain])
-            if renamed_key is None:
-                # Only str-based keys can be renamed (e.g. not ints)
+            if renamed_key is None or (renamed_key != top_key and renamed_key in dsk):
+                # Only str-based keys can be renamed (e.g. not ints), and the new
+                # name must not be the key of another node of the graph
                 renamed_key = top_key
             result[renamed_key] = Task.fuse(*linear_chain, key=renamed_key)
             if renamed_key != top_key:
